@@ -28,9 +28,11 @@ OPEN_STATEMENTS = [
     'sz_indices_spec_free, arbitrary injective disjoint index maps) and every listed index is an eigenstate of the Model sz '
     'operator with eigenvalue sz (sz_indices_eigen, default maps, fixed particle number); the converse through the operator '
     '(every eigenstate is listed) and numUp + numDown = popcount are not stated separately; both oracles cover them',
-    'restrict_is_projection: the index part is proved at the matrix level for the particle number '
-    '(number_indices_matrix_sector: the listed matrix indices are exactly the eigenvalue-k basis states, through the bit '
-    'reversal); that numpy.ix_ extracts those rows / columns in list order is the indexing contract (restrict stream)',
+    'restrict_is_projection is proved for the particle number (number_restrict_is_compression: for a matrix in the '
+    'get_sparse_operator convention the restricted matrix is |I| x |I| with entry (p, q) = Spec matrix element between the p-th '
+    'and q-th listed weight-k basis states; restrict_state_entries); the S_z version follows in the same way from '
+    'sz_indices_spec_* / sz_indices_eigen and is not stated separately; that get_sparse_operator produces that matrix belongs to '
+    'another property (restrict stream: compared with the Spec matrix on every input)',
     'iterate_basis_spec is proved for both flags (iterate_basis_spec_nospin, iterate_basis_spec_spin; the spin version is stated '
     'through vacated / filled alpha and beta orbitals, not through countTrue of the even / odd sublists)',
     'number_preserving_sparse_operator_sound is proved as one statement for operators whose terms are normal-ordered with '
